@@ -283,3 +283,111 @@ fn c12_jxl_box_map_small_grammar() {
     println!("VERIF-B-SAMPLE violation classes this run: {:?}", counts);
     println!("VERIF-B unit=png_io test=c12_jxl_box_map_small_grammar evaluations={evals} nontrivial={nontrivial} exhaustive=true domain=JPEG XL signature + ftyp + 0..=3 boxes over {{jxll,jxlc,jxlp,Exif,xml ,jumb,brob,free}} with 0..=2 payload bytes, last box optionally open-ended, 0..=2 trailing bytes");
 }
+
+
+// JPEG grammar: SOI, up to 4 header segments (APP0, APP1, two kinds of APP11 'JP' segments - the C2PA store and a
+// foreign box instance -, DQT, COM), then optionally SOS + entropy-coded bytes (with a stuffed 0xFF00 and a restart
+// marker) + EOI, 0..=2 trailing bytes; same contract as for PNG
+#[test]
+fn c12_jpeg_box_map_small_grammar() {
+    use crate::jumbf_io::get_assetio_handler;
+    let Some(h) = get_assetio_handler("jpg") else { return };
+    let Some(bh) = h.asset_box_hash_ref() else { return };
+    let seg = |marker: u8, payload: &[u8]| -> Vec<u8> {
+        let mut v = vec![0xff, marker];
+        v.extend_from_slice(&((payload.len() + 2) as u16).to_be_bytes());
+        v.extend_from_slice(payload);
+        v
+    };
+    let app11 = |en: u16, z: u32, c2pa: bool| -> Vec<u8> {
+        let mut p = b"JP".to_vec();
+        p.extend_from_slice(&en.to_be_bytes());
+        p.extend_from_slice(&z.to_be_bytes());
+        p.extend_from_slice(&40u32.to_be_bytes());
+        p.extend_from_slice(b"jumb");
+        p.extend_from_slice(&32u32.to_be_bytes());
+        p.extend_from_slice(b"jumd");
+        p.extend_from_slice(if c2pa { b"c2pa" } else { b"xxxx" });
+        p.extend_from_slice(&[0u8; 20]);
+        p
+    };
+    let kinds: Vec<(&str, Vec<u8>)> = vec![
+        ("APP0", seg(0xe0, b"JFIF\0\x01\x01\0\0\x01\0\x01\0\0")),
+        ("APP1", seg(0xe1, b"Exif\0\0ab")),
+        ("C2PA#1", seg(0xeb, &app11(1, 1, true))),
+        ("C2PA#2", seg(0xeb, &app11(1, 2, true))),
+        ("APP11other", seg(0xeb, &app11(7, 1, false))),
+        ("DQT", seg(0xdb, &[0u8; 5])),
+        ("COM", seg(0xfe, b"hi")),
+    ];
+    let mut evals = 0usize;
+    let mut nontrivial = 0usize;
+    let mut counts: std::collections::BTreeMap<String, usize> = std::collections::BTreeMap::new();
+    let mut seqs: Vec<Vec<usize>> = vec![vec![]];
+    for _ in 0..4 {
+        let mut next = Vec::new();
+        for s in &seqs {
+            for k in 0..kinds.len() {
+                let mut s2 = s.clone();
+                s2.push(k);
+                next.push(s2);
+            }
+        }
+        seqs.extend(next);
+        seqs.sort();
+        seqs.dedup();
+    }
+    for s in &seqs {
+        for with_scan in [true, false] {
+            for trailing in 0..=2usize {
+                let mut f = vec![0xffu8, 0xd8];
+                for k in s {
+                    f.extend_from_slice(&kinds[*k].1);
+                }
+                if with_scan {
+                    f.extend(seg(0xc0, &[8, 0, 1, 0, 1, 1, 1, 0x11, 0]));
+                    f.extend(seg(0xda, &[1, 1, 0, 0, 0x3f, 0]));
+                    f.extend_from_slice(&[0x12, 0xff, 0x00, 0x34, 0xff, 0xd0, 0x56]);
+                    f.extend_from_slice(&[0xff, 0xd9]);
+                }
+                f.extend(std::iter::repeat(0x55u8).take(trailing));
+                evals += 1;
+                let mut cur = Cursor::new(f.clone());
+                let got = std::panic::catch_unwind(std::panic::AssertUnwindSafe(|| bh.get_box_map(&mut cur)));
+                let key: Option<String> = match got {
+                    Err(_) => Some("box_map.jpg.panic".to_string()),
+                    Ok(Err(_)) => None,
+                    Ok(Ok(boxes)) => {
+                        nontrivial += 1;
+                        if s.is_empty() && with_scan && trailing == 0 {
+                            println!("VERIF-B-SAMPLE minimal JPEG ({} bytes) box map: {:?}", f.len(), boxes.iter().map(|b| (b.names[0].clone(), b.range_start, b.range_len)).collect::<Vec<_>>());
+                        }
+                        match box_map_contract(&boxes, f.len() as u64) {
+                            Ok(()) => None,
+                            Err(c) if !with_scan => Some(format!("box_map.jpg.{c}.no_scan_data")),
+                            Err(c) => {
+                                // restart markers are listed as boxes of their own although the SOS box already spans the
+                                // whole entropy-coded segment: if that is the only problem, report it under its own class
+                                let without_rst: Vec<BoxMap> = boxes.into_iter().filter(|b| !b.names[0].starts_with("RST")).collect();
+                                match box_map_contract(&without_rst, f.len() as u64) {
+                                    Ok(()) => Some("box_map.jpg.restart_marker_boxes_overlap_scan_box".to_string()),
+                                    Err(c2) if trailing > 0 && c2 == "trailing_bytes_uncovered" => Some("box_map.jpg.trailing_bytes_uncovered".to_string()),
+                                    Err(_) => Some(format!("box_map.jpg.{c}")),
+                                }
+                            }
+                        }
+                    }
+                };
+                if let Some(k) = key {
+                    let c = counts.entry(k.clone()).or_insert(0);
+                    *c += 1;
+                    if *c <= 3 {
+                        println!("VERIF-B-VIOLATION key={k} input=segments={:?} scan={with_scan} trailing={trailing}", s.iter().map(|k| kinds[*k].0).collect::<Vec<_>>());
+                    }
+                }
+            }
+        }
+    }
+    println!("VERIF-B-SAMPLE violation classes this run: {:?}", counts);
+    println!("VERIF-B unit=png_io test=c12_jpeg_box_map_small_grammar evaluations={evals} nontrivial={nontrivial} exhaustive=true domain=SOI + 0..=4 header segments over 7 kinds (APP0, APP1, two C2PA APP11 segments, a foreign APP11 JP segment, DQT, COM) x with / without SOF+SOS+scan+EOI x 0..=2 trailing bytes");
+}
